@@ -440,3 +440,72 @@ var phm5 = func(t *CT, a int) int {
 	}
 	return x
 }
+
+//go:noinline
+func (t *CT) um0(a int) int { return t.v + a*5 + 300 }
+
+//go:noinline
+func (t *CT) um1(a int) int { return t.v + a*6 + 301 }
+
+//go:noinline
+func (t *CT) um2(a int) int { return t.v + a*7 + 302 }
+
+var phu0 = func(t *CT, a int) int {
+	x := a
+	for i := 0; i < len(sink); i++ {
+		x = x*31 + i
+		sink[i&7] += x
+		if x&1 == 0 {
+			x ^= sink[(i+1)&7]
+		} else {
+			x += sink[(i+3)&7] * 7
+		}
+		sink[(i+5)&7] -= x >> 3
+		if x%7 == 3 {
+			x = x*x + sink[(i+2)&7]
+		}
+		sink[(i+6)&7] ^= x << 2
+		x += sink[(i+4)&7]*13 - sink[(i+7)&7]*17
+	}
+	return x
+}
+
+var phu1 = func(t *CT, a int) int {
+	x := a
+	for i := 0; i < len(sink); i++ {
+		x = x*31 + i
+		sink[i&7] += x
+		if x&1 == 0 {
+			x ^= sink[(i+1)&7]
+		} else {
+			x += sink[(i+3)&7] * 7
+		}
+		sink[(i+5)&7] -= x >> 3
+		if x%7 == 3 {
+			x = x*x + sink[(i+2)&7]
+		}
+		sink[(i+6)&7] ^= x << 2
+		x += sink[(i+4)&7]*13 - sink[(i+7)&7]*17
+	}
+	return x
+}
+
+var phu2 = func(t *CT, a int) int {
+	x := a
+	for i := 0; i < len(sink); i++ {
+		x = x*31 + i
+		sink[i&7] += x
+		if x&1 == 0 {
+			x ^= sink[(i+1)&7]
+		} else {
+			x += sink[(i+3)&7] * 7
+		}
+		sink[(i+5)&7] -= x >> 3
+		if x%7 == 3 {
+			x = x*x + sink[(i+2)&7]
+		}
+		sink[(i+6)&7] ^= x << 2
+		x += sink[(i+4)&7]*13 - sink[(i+7)&7]*17
+	}
+	return x
+}
